@@ -206,11 +206,30 @@ pub const OPEN_ERRNOS: [i32; 13] = [
     libc::EIO,
 ];
 pub const WRITE_ERRNOS: [i32; 4] = [libc::ENOSPC, libc::EDQUOT, libc::EFBIG, libc::EIO];
-pub const PAD_SIZES: [usize; 14] = [
-    4095, 4096, 4097, 8191, 8192, 8193, 16384, 32768, 65535, 65536, 65537, 131072, 262144, 1048576,
-];
+/// Output sizes an SVG run is padded to exactly: 2^n - 1, 2^n, 2^n + 1 and a few
+/// odd multiples of common buffer/chunk sizes (off-by-one territory for chunked writers).
+pub fn pad_sizes() -> Vec<usize> {
+    let mut v = Vec::new();
+    for n in 12..=20u32 {
+        let p = 1usize << n;
+        v.extend_from_slice(&[p - 1, p, p + 1]);
+    }
+    for (k, c) in [(3usize, 4096usize), (5, 4096), (3, 8192), (5, 8192), (7, 8192), (3, 1024), (5, 1024), (3, 65536)] {
+        v.extend_from_slice(&[k * c - 1, k * c, k * c + 1]);
+    }
+    v.sort();
+    v.dedup();
+    v
+}
 
-const NAMES: [&str; 10] = [
+const NAMES: [&str; 16] = [
+    // long multi-byte names: any fixed byte offset into such a path is likely not a char boundary
+    "名前名前名前名前名前名前名前名前名前名前名前名前名前名前名前名前名前名前名前名前.svg",
+    "a名前名前名前名前名前名前名前名前名前名前名前名前名前名前名前名前名前名前名前名前.png",
+    "ab名前名前名前名前名前名前名前名前名前名前名前名前名前名前名前名前名前名前名前名前",
+    "éééééééééééééééééééééééééééééééééééééééééééééééééééééééééééé.svg",
+    "x📷📷📷📷📷📷📷📷📷📷📷📷📷📷📷📷📷📷📷📷.png",
+    "%41%2e%2e%2f & ; $HOME `x` 'q' \"d\" *.svg",
     "out.svg",
     "out.png",
     "QR Code (1).SVG",
@@ -314,6 +333,10 @@ fn gen_plan(rng: &mut Rng, sw: &Swarm) -> PlanSpec {
     }
     if sw.fsync_err && rng.chance(1, 4) {
         p.fsync_err = Some(*rng.pick(&[libc::EIO, libc::EINTR, libc::ENOSPC]));
+    }
+    // only delivered if the implementation renames/truncates at all (temp-file schemes)
+    if sw.open_hard && rng.chance(1, 6) {
+        p.meta_err = Some(*rng.pick(&[libc::EXDEV, libc::EACCES, libc::ENOSPC, libc::EIO, libc::EBUSY]));
     }
     if rng.prob(sw.p_hard) {
         let mut kinds = Vec::new();
@@ -447,7 +470,10 @@ pub fn gen_run(verif_seed: u64, index: u64) -> IoRun {
         let plan = gen_plan(&mut rng, &sw);
         let mut pad_to = None;
         if kind == Kind::Svg && sw.pad && rng.chance(3, 10) {
-            pad_to = Some(PAD_SIZES[rng.weighted(&[8, 10, 8, 6, 8, 6, 6, 5, 6, 8, 6, 4, 2, 1])]);
+            let sizes = pad_sizes();
+            // smaller sizes more often (cheaper), every size regularly
+            let i = if rng.chance(1, 2) { rng.usize_below(sizes.len() / 2) } else { rng.usize_below(sizes.len()) };
+            pad_to = Some(sizes[i]);
             setters.push(RSetter::Image(ImageSpec::Filler(0)));
         }
         let rlimit = if sw.rlimit && rng.chance(15, 100) && !target.kernel_fault() {
@@ -598,6 +624,15 @@ fn restore_fsize_limit(old: libc::rlimit) {
     }
 }
 
+/// /dev/full must be the real character device (1,7); anything else is not used.
+fn dev_full_ok() -> bool {
+    use std::os::unix::fs::{FileTypeExt, MetadataExt};
+    match std::fs::metadata("/dev/full") {
+        Ok(m) => m.file_type().is_char_device() && libc::major(m.rdev()) == 1 && libc::minor(m.rdev()) == 7,
+        Err(_) => false,
+    }
+}
+
 fn first_diff(a: &[u8], b: &[u8]) -> usize {
     a.iter().zip(b.iter()).position(|(x, y)| x != y).unwrap_or(a.len().min(b.len()))
 }
@@ -639,7 +674,9 @@ fn resolve_path(dir: &Path, t: &Target) -> String {
         Target::LongName => format!("{}/{}", d, "n".repeat(300)),
         Target::Nul => format!("{}/nul\0name", d),
         Target::Empty => String::new(),
-        Target::DevFull => "/dev/full".to_string(),
+        // a symlink inside the run directory: the code under test runs as root, and a
+        // temp-file-and-rename implementation must replace the link, never the device node
+        Target::DevFull => format!("{}/full-device", d),
     }
 }
 
@@ -733,6 +770,15 @@ fn exec_op(dir: &Path, idx: usize, op: &IoOp, stats: &mut Stats) -> OpReport {
         Target::NotDir => {
             let _ = std::fs::write(dir.join("a-file"), b"i am a file");
         }
+        Target::DevFull => {
+            if !dev_full_ok() {
+                return skip(rep, "no_dev_full", stats);
+            }
+            let _ = std::fs::remove_file(&path);
+            if std::os::unix::fs::symlink("/dev/full", &path).is_err() {
+                return skip(rep, "no_dev_full", stats);
+            }
+        }
         Target::Scratch(_) | Target::Relative(_) => {
             let existing = std::fs::read(&path).ok();
             let pre: Option<Vec<u8>> = match &op.pre {
@@ -785,7 +831,9 @@ fn exec_op(dir: &Path, idx: usize, op: &IoOp, stats: &mut Stats) -> OpReport {
     }
 
     // 5. observe
-    let file_state: (String, bool) = if op.target == Target::DevFull {
+    let still_device_link = op.target == Target::DevFull
+        && std::fs::symlink_metadata(&path).map(|m| m.file_type().is_symlink()).unwrap_or(false);
+    let file_state: (String, bool) = if still_device_link {
         ("dev_full".into(), false)
     } else {
         match std::fs::read(&path) {
@@ -828,7 +876,7 @@ fn exec_op(dir: &Path, idx: usize, op: &IoOp, stats: &mut Stats) -> OpReport {
         Ok(Ok(())) => {
             rep.result = "Ok".into();
             stats.result_ok += 1;
-            if op.target == Target::DevFull {
+            if still_device_link {
                 rep.violation = Some(Violation {
                     invariant: "O2_ok_on_unwritable_target".into(),
                     op_index: idx,
